@@ -27,7 +27,11 @@ def one(sid):
         evd = tempfile.mkdtemp(prefix='nbsa-re-ev-')
         caught, errs, details = [], [], {}
         # the property it breaks first, then the others
-        for p in PROPS:
+        props = PROPS
+        if FAST:
+            # the property it breaks, plus whatever reported or could not decide it last time
+            props = sorted({meta['breaks_property']} | set(meta.get('caught_by') or []) | set(meta.get('analysis_errors') or []))
+        for p in props:
             r = sh(['/venv/bin/python', '-m', 'nbsa.check', p, '--tier', 'quick', '--root', wt], cwd='/verif',
                    env=dict(os.environ, NBSA_EVIDENCE_DIR=evd))
             if r.returncode == 1:
@@ -47,9 +51,17 @@ def one(sid):
         shutil.rmtree(wt, ignore_errors=True)
 
 
+FAST = False
+
+
 def main():
-    ids = sys.argv[1:] or sorted(os.listdir(SEEDED))
-    with ThreadPoolExecutor(max_workers=4) as ex:
+    global FAST
+    argv = sys.argv[1:]
+    if '--fast' in argv:
+        FAST = True
+        argv.remove('--fast')
+    ids = argv or sorted(os.listdir(SEEDED))
+    with ThreadPoolExecutor(max_workers=8) as ex:
         for sid, caught, errs, details in ex.map(one, ids):
             own = json.load(open(os.path.join(SEEDED, sid, 'meta.json')))['breaks_property']
             print('%-7s breaks %s  caught by %-22s errors %s' % (sid, own, caught, errs or ''))
